@@ -108,8 +108,14 @@ def run(ctx: Ctx):
     report(ctx, b2l, o, "bin_to_bool_list")
     expect_ret(ctx, b2l, o, "BE", "bin_to_bool_list")
     # the prefix is stripped before anything else
-    strip = [n for n in walk_no_nested(b2l.node) if isinstance(n, ast.If) and "startswith('0b')" in norm(n.test)]
-    ctx.check(len(strip) == 1 and b2l.body.index(strip[0]) <= 1, "OR-PREFIX", b2l, "`0b` prefix stripped first, from the front", "", "the 0b prefix is not stripped before the digits are used", b2l.node)
+    strip = [n for n in walk_no_nested(b2l.node) if isinstance(n, (ast.If, ast.IfExp)) and "startswith('0b')" in norm(n.test)]
+    if len(strip) != 1:
+        ctx.undecided(b2l.short, f"`0b` prefix handling: {len(strip)} tests for the prefix")
+    else:
+        # what is cut off under the test is the first two characters
+        cut = [n for n in ast.walk(strip[0]) if isinstance(n, ast.Subscript) and isinstance(n.slice, ast.Slice)]
+        front = [n for n in cut if norm(n.slice.lower) == "2" and n.slice.upper is None and n.slice.step is None] if cut else []
+        ctx.check(bool(front), "OR-PREFIX", b2l, "`0b` prefix stripped from the front", norm(front[0]) if front else "", f"under the `0b` test the string is cut as {[norm(n) for n in cut]}: the prefix is the first two characters", strip[0])
     l2b = repo.func(f"{T}.qtype.bool_list_to_bin")
     for lay in ("LE", "BE"):
         o = analyse(ctx, l2b, {l2b.params[0]: Qual(lay)}, False)
